@@ -172,7 +172,29 @@ def eval_flank(model, fname, prev, nxt, ch, runlen):
             return ('raise', r.exc.kind)
     for trace, res in enumerate_paths(run, max_paths=200):
         outcomes.add(res)
+    if len(outcomes) != 1 or any(k != 'ret' for k, _ in outcomes):
+        # the abstract neighbours did not decide it (a predicate that puts the neighbours through a regular expression,
+        # say): the function is folded on representatives of the classes instead
+        conc = set()
+        for p_ in ([''] if prev == 'EDGE' else FLANK_REPS[prev]):
+            for n_ in ([''] if nxt == 'EDGE' else FLANK_REPS[nxt]):
+                text = p_ + ch * runlen + n_
+                it = Interp(model)
+                it.reset_run(Oracle())
+                try:
+                    v = it.call(fi, [len(p_), len(p_) + runlen, text], {})
+                    conc.add(('ret', bool(it.truth(v))) if not is_abstract(v) else ('abstract', repr(v)))
+                except Raised as r:
+                    conc.add(('raise', r.exc.kind))
+        if len(conc) == 1 and not any(k == 'abstract' for k, _ in conc):
+            return conc
     return outcomes
+
+
+# representatives of the neighbour classes of the flanking rules (CommonMark 6.2): Unicode whitespace, ASCII and Unicode
+# punctuation, anything else
+FLANK_REPS = {'ws': [' ', '\t', '\n', '\u00a0', '\u2003', '\u3000'], 'apunct': ['.', '!', '(', '*', '_', '\\', ']', '-', '^'],
+              'upunct': ['\u201c', '\u2014', '\u00ab', '\u3002'], 'other': ['a', 'Z', '1', '\u00e9', '\u4e2d', '\u20ac', '+' if False else 'x']}
 
 
 def spec_cls(c):
@@ -280,6 +302,23 @@ def rule_flank_wired(ctx, rep):
         for trace, res in enumerate_paths(run, max_paths=400):
             got[0].add(res[0])
             got[1].add(res[1])
+        if any(len(g) != 1 or any(k != 'ret' for k, _ in g) for g in got):
+            # not decided on abstract neighbours: the constructor is folded on representatives of the classes
+            conc = [set(), set()]
+            for p_ in ([''] if prev == 'EDGE' else FLANK_REPS[prev]):
+                for n_ in ([''] if nxt == 'EDGE' else FLANK_REPS[nxt]):
+                    it = Interp(model)
+                    it.reset_run(Oracle())
+                    try:
+                        o = it.construct(cls, [len(p_), len(p_) + runlen, p_ + ch * runlen + n_], {})
+                        for i_, a in enumerate(('open', 'close')):
+                            v = o.attrs.get(a, MISSING)
+                            conc[i_].add(('unset', None) if v is MISSING else ('abstract', repr(v)) if is_abstract(v) else ('ret', bool(v)))
+                    except Raised as r:
+                        conc[0].add(('raise', r.exc.kind))
+                        conc[1].add(('raise', r.exc.kind))
+            if all(len(g) == 1 and not any(k == 'abstract' for k, _ in g) for g in conc):
+                got = conc
         for i, (attr, fname) in enumerate((('open', 'is_opener'), ('close', 'is_closer'))):
             want = flanking.EXPECTED[fname](spec_cls(prev), spec_cls(nxt), ch)
             ok = got[i] == {('ret', want)}
